@@ -213,6 +213,8 @@ type ExpectedStatus struct {
 	CanaryRS                                              string
 	CondFailed, CondPaused                                bool
 	JudgeConds                                            bool
+	// Reason: the paused reason while the state is Canary Paused, empty otherwise
+	Reason string
 }
 
 // ExpectedEDSStatus computes the documented function of the replica-set statuses *as read*:
@@ -252,6 +254,16 @@ func ExpectedEDSStatus(eds *v1.ExtendedDaemonSet, rss []*v1.ExtendedDaemonSetRep
 			e.State = v1.ExtendedDaemonSetStatusStateCanary
 			if paused {
 				e.State = v1.ExtendedDaemonSetStatusStateCanaryPaused
+				// reason: the replica set's own condition reason, else the reason annotation, else Unknown
+				e.Reason = "Unknown"
+				if r, ok := ann[annPausedReason]; ok && ann[annPaused] == "true" {
+					e.Reason = r
+				}
+				for _, c := range upToDate.Status.Conditions {
+					if c.Type == v1.ConditionTypeCanaryPaused && c.Status == corev1.ConditionTrue {
+						e.Reason = c.Reason
+					}
+				}
 			}
 		}
 	}
@@ -286,6 +298,8 @@ func DiffStatus(got *v1.ExtendedDaemonSetStatus, want ExpectedStatus) []string {
 	}
 	if got.State != want.State {
 		d = append(d, "state")
+	} else if string(got.Reason) != want.Reason {
+		d = append(d, "reason")
 	}
 	if (got.Canary != nil) != want.CanarySet {
 		d = append(d, "canary-nilness")
